@@ -18,7 +18,7 @@ from harness.props import c06
 from harness.props.c06 import fr, tok_num, tok_opt, tok_unit, tok_val, close, U, observe
 
 PROP = 'C16'
-GENERATED = ['TimeUnits', 'TimeParConsts', 'HazardExprs', 'TimeDecls']
+GENERATED = ['TimeUnits', 'TimeParConsts', 'HazardExprs', 'TimeDecls', 'StepClocks']
 DRIVER = 'Drivers/C16.lean'
 DRIVER_MODULES = ['StarsimModel.Model.Hazard', 'StarsimModel.Model.TimePar', 'StarsimModel.Model.Proto']
 RULE = ('seeded (sim unit, dt) x (module unit, dt) x rate form (TimePar of any unit / plain number / year-sex-age table) x agents; '
@@ -59,7 +59,7 @@ def mk_rate(spec):
     return ss.rate(spec[1], unit=spec[2])
 
 
-def build(kind, su, sdt, dur, mkw, rate=None, extra=None, n_agents=60):
+def build(kind, su, sdt, dur, mkw, rate=None, extra=None, n_agents=60, start=None):
     """ build and initialise a real sim with one demographics module; returns (sim, module) or raises """
     import starsim as ss
     kw = dict(mkw)
@@ -73,7 +73,8 @@ def build(kind, su, sdt, dur, mkw, rate=None, extra=None, n_agents=60):
     else:
         kw['fertility_rate'] = rate
         mod = ss.Pregnancy(**kw)
-    sim = ss.Sim(n_agents=n_agents, unit=su, dt=sdt, dur=dur, demographics=mod, verbose=0)
+    skw = {} if start is None else dict(start=start)     # sim = [unit, dt, dur, start]: numeric or calendar time axis
+    sim = ss.Sim(n_agents=n_agents, unit=su, dt=sdt, dur=dur, demographics=mod, verbose=0, **skw)
     sim.init()
     return sim, sim.demographics[0]
 
@@ -272,6 +273,8 @@ def correspond(ctx):
     r2.correspond(ctx, sys.modules[__name__])
     from harness.props import c16_round3 as r3
     r3.correspond(ctx, sys.modules[__name__])
+    from harness.props import c16_round4 as r4
+    r4.correspond(ctx, sys.modules[__name__])
 
 
 def delivery_prob(su, sdt, dur, P):
@@ -300,11 +303,11 @@ def F(sig, what):
 def o_hazard(a):
     """ per-step probability = rate (per year, per rate_units) x step length in years """
     import starsim as ss
-    su, sdt, dur = a['sim']; kind = a['kind']; form = a['form']
+    su, sdt, dur = a['sim'][:3]; start = a['sim'][3] if len(a['sim']) > 3 else None; kind = a['kind']; form = a['form']
     ru = a.get('ru', 1e-3); rel = a.get('rel', 1)
     extra = {'births': dict(rate_units=ru, rel_birth=rel), 'deaths': dict(rate_units=ru, rel_death=rel)}[kind]
     rate = ss.rate(a['v'], unit=a.get('runit', 'year')) if form == 'timepar' and a.get('v') is not None else None
-    sim, m = build(kind, su, sdt, dur, a['mod'], rate, extra)
+    sim, m = build(kind, su, sdt, dur, a['mod'], rate, extra, start=start)
     if form == 'number':
         if kind == 'births': m.pars.birth_rate = a['v']
         else: m.death_rate_data = a['v']
@@ -325,8 +328,8 @@ def o_hazard(a):
 
 def o_fertility(a):
     import starsim as ss
-    su, sdt, dur = a['sim']
-    sim, pg = build('preg', su, sdt, dur, a['mod'], a['v'], dict(rate_units=a.get('ru', 1e-3)), n_agents=80)
+    su, sdt, dur = a['sim'][:3]
+    sim, pg = build('preg', su, sdt, dur, a['mod'], a['v'], dict(rate_units=a.get('ru', 1e-3)), n_agents=80, start=a['sim'][3] if len(a['sim']) > 3 else None)
     ppl = sim.people; uids = ppl.female.uids
     pr = ss.Pregnancy.make_fertility_prob_fn(pg, sim, uids)
     ages = np.array(ppl.age[uids])
@@ -468,6 +471,16 @@ def _zoo(a):
 ORACLES['zoo'] = _zoo
 
 
+def _r4(name):
+    def f(a):
+        from harness.props import c16_round4 as r4
+        return r4.ORACLES[name](a, sys.modules[__name__])
+    return f
+
+
+ORACLES.update({k: _r4(k) for k in ('realised', 'axis_ageing', 'axis_run_ageing')})
+
+
 def run_oracle(ctx, name, args):
     try:
         fails = ORACLES[name](args)
@@ -503,6 +516,8 @@ def search(ctx):
     r2.search(ctx, sys.modules[__name__], run_oracle)
     from harness.props import c16_round3 as r3
     r3.search(ctx, sys.modules[__name__], run_oracle)
+    from harness.props import c16_round4 as r4
+    r4.search(ctx, sys.modules[__name__], run_oracle)
     from harness.props import c16_zoo
     c16_zoo.search(ctx, sys.modules[__name__])
     run_oracle(ctx, 'events', dict(kind='births', dts=[1.0, 0.5, 0.2], seed=rng.randint(1, 10 ** 6)))
